@@ -116,8 +116,12 @@ def round_trip(cfg, root, files, args, pre, rng, label, tree_prefix=b'tree'):
     fz = cfg['conc'] > 1 and rng.random() < 0.34
     fseed = rng.randrange(1 << 30)
     try:
+        # half of the multi-worker round trips: uploads of chunk objects take longer than existence checks (ordinary storage latency), so
+        # the workers finish chunks in another order than they were produced
+        from .. import repodrv
+        slow = {'backend': w.backend(gate=repodrv.DelayPrefix('data/', 0.003))} if (cfg['conc'] > 1 and rng.random() < 0.5) else {}
         with (linefuzz.fuzz(fseed, linefuzz.SNAPSHOT, q=0.1) if fz else contextlib.nullcontext()):
-            o = w.snapshot('a', argpaths)
+            o = w.snapshot('a', argpaths, **slow)
     finally:
         _verif.controller = None
     rec = {'label': label, 'cfg': {k: v for k, v in cfg.items()}, 'align': 4, 'snapshot_ok': bool(o.ok), 'restore_ok': False, 'files': [], 'manifest': [],
@@ -216,6 +220,14 @@ def content(rng, n, kind):
         return bytes(n)
     if kind == 'rep':
         return (b'ABCDEFGH' * (n // 8 + 1))[:n]
+    if kind == 'sandwich':
+        # runs of zeros around stretches of data (disk images, sparse files): a chunk repeats AFTER a different new chunk
+        out, z = b'', True
+        while len(out) < n:
+            k = rng.randrange(1, max(2, n // 3))
+            out += bytes(k) if z else rng.randbytes(k)
+            z = not z
+        return out[:n]
     return rng.randbytes(n)
 
 
@@ -266,7 +278,7 @@ def main(run):
             rels = [os.path.join(b'tree-2', os.fsencode(first))] + [os.path.join(b'tree', os.fsencode(n)) for n in inner]
             assert sorted(rels, key=key) == rels
             files = {}
-            kinds = ['rand', 'zero', 'rep', 'same']
+            kinds = ['rand', 'zero', 'rep', 'same', 'sandwich']
             shared = content(rng, 4096, 'rand')
             for i, rel in enumerate(rels):
                 sz = classes[sizes[i]]
@@ -289,7 +301,7 @@ def main(run):
             names = rng.sample(pool, min(n, len(pool)))
             piece = cfg['piece'] or 64
             interesting = [0, 1, 3, 4, 5, cfg['mn'], cfg['mx'] - 1, cfg['mx'], cfg['mx'] + 1, 2 * cfg['mx'], 2 * cfg['mx'] + 1, piece - 1, piece, piece + 1, 3 * piece + 2, 1000]
-            files = {nm: content(rng, rng.choice(interesting), rng.choice(['rand', 'zero', 'rep'])) for nm in names}
+            files = {nm: content(rng, rng.choice(interesting), rng.choice(['rand', 'zero', 'rep', 'sandwich', 'sandwich'])) for nm in names}
             src = d / 'src' / 'tree'
             args = ['tree']
             if rng.random() < 0.5:
